@@ -567,7 +567,7 @@ package gogen
 //@ ensures ImpsGrow(p)
 
 //@ func (*Package).Zero
-//@ prop C14
+//@ prop C14 C11
 //@ requires PkgWf(p) && typ != nil && GlobalsWf() && StdType(typ) && !typeis(typ, *types.TypeParam) && imp(typeis(typ, *types.Alias), StdType(types.Unalias(typ)) && !typeis(types.Unalias(typ), *types.TypeParam))
 //@ requires BKind(Resolve(typ)) != 0 && BKind(Resolve(typ)) != 19 && BKind(Resolve(typ)) != 24 && BKind(Resolve(typ)) != 25
 //@ loop 0 invariant typ != nil && Resolve(typ) == Resolve(entry(typ)) && StdType(typ) && !typeis(typ, *types.TypeParam) && imp(typeis(typ, *types.Alias), StdType(types.Unalias(typ)) && !typeis(types.Unalias(typ), *types.TypeParam))
@@ -1719,6 +1719,7 @@ package gogen
 //@ loop 1 invariant 0 <= i && i <= m && len(indices) == n && forall(j, 0, i, indices[j] == entry(args)[from + j].Val)
 //@ loop 2 invariant m <= i && i <= n && len(indices) == n && forall(j, 0, m, indices[j] == entry(args)[from + j].Val)
 //@ assertcall Instantiate: arg_validate && m == n && arg_orig == asI(sig, types.Type) && arg_targs == targs && forall(j, 0, n, targs[j] == args[from + j].Type.(*TypeType).typ)
+//@ assertcall inferFunc: arg_flags == flags - ((flags / 4) % 2) * 4 - ((flags / 8) % 2) * 8
 //@ assertcall inferFunc: 1 <= m && m < n && arg_sig == sig && arg_targs == targs && arg_fn == fn && forall(j, 0, m, typeis(args[from + j].Type, *TypeType) && targs[j] == args[from + j].Type.(*TypeType).typ) && !typeis(args[from + m].Type, *TypeType)
 //@ assertcall inferFunc: len(arg_args) == len(args) - m && imp(from == 0, forall(j, 0, len(arg_args), arg_args[j] == args[m + j])) && imp(from == 1, arg_args[0] == args[0] && forall(j, 1, len(arg_args), arg_args[j] == args[m + j]))
 
